@@ -275,7 +275,7 @@ func DecodeClaimsFromJSON(buf []byte) (IClaims, error) {
 		// as documented: in the absence of a profile field, Profile1 (the
 		// default entry of the register) is assumed
 		entry, ok := profilesRegister[""]
-		if profilePresent || !ok {
+		if profilePresent || !ok || decoded == nil {
 			return nil, errors.New(`could not match profile`)
 		}
 
